@@ -339,3 +339,9 @@ def run(ck, F, tier):
     b2_escape_widths(ck, F)
     c_intradc(ck, F)
     d_dquant(ck, F)
+    # DQUANT code -> step and the escape forms that define the codable levels (8 / 7 / 11-bit LEVEL), as decision tables
+    from . import mblayer
+    from ..report import Scoped
+    s = Scoped(ck, 'MB.')
+    mblayer.rule_v(s, F, ['tcoef'])
+    mblayer.rule_syntax(s, F, ['dquant', 'block'])
